@@ -61,7 +61,7 @@ def main():
     metas = [json.load(open(mj)) for mj in sorted(glob.glob(os.path.join(V, 'seeded', '*', 'meta.json')))]
     n_missed = sum(1 for m in metas if m['note'].startswith('missed'))
     n_final = sum(1 for m in metas if ((m.get('final_check') or {}).get('rc', m['what_i_ran']['check_quick_exit_code_when_first_run']) == 1))
-    out.append('%d seeded changes in four rounds (round 1: two per property; rounds 2-4 asked for changes that need concurrency, multi-step API sequences, state carried '
+    out.append('%d seeded changes in five rounds (round 1: two per property; rounds 2-5 asked for changes that need concurrency, multi-step API sequences, state carried '
                'between calls/blocks/pieces, rarely used paths or buffer-boundary sizes, and named the ideas already used): %d were missed by the check as it was when '
                'the seed was first tried, %d are caught by the checks as committed.\n' % (len(metas), n_missed, n_final))
     out.append('| seed | needs in order to manifest (from the author) | first run | final | note |')
